@@ -120,9 +120,36 @@ func (e *FnEnc) assumePkgInvariants() {
 	if e.skipPkgInv || e.fn == nil || e.fn.Pkg == nil {
 		return
 	}
-	env := e.entryEnv()
-	for _, c := range e.prog.pkgInvs[e.fn.Pkg.Pkg.Path()] {
-		e.assert(e.evalBool(c.E, env, c))
+	own := e.fn.Pkg.Pkg.Path()
+	for _, pp := range sortedKeys(e.prog.pkgInvs) {
+		pk := e.prog.typesPkg(pp)
+		if pk == nil {
+			continue // package not in this program
+		}
+		env := e.entryEnv()
+		env.pkg = pk
+		if pp != own {
+			env.vars = map[string]Val{} // no parameter names of this function in another package's invariant
+			if !e.prog.roots[pp] {
+				e.note("package invariant of " + pp + " assumed (dependency: its init is not verified in this run)")
+			}
+		}
+		for _, c := range e.prog.pkgInvs[pp] {
+			e.assert(e.evalBool(c.E, env, c))
+		}
 	}
 	e.flushFacts()
+}
+
+// embedded / element references are allocated at entry exactly when their parent object is
+func (e *FnEnc) allocClosureAxioms() {
+	a0 := quoteSym("$alloc")
+	if e.ufs["emb_axioms"] && !e.ufs["alloc_closure_emb"] {
+		e.ufs["alloc_closure_emb"] = true
+		e.specDefs = append(e.specDefs, "(assert (forall ((r Int) (j Int)) (! (= (select "+a0+" (emb r j)) (select "+a0+" r)) :pattern ((emb r j)))))")
+	}
+	if e.ufs["eaddr_axioms"] && !e.ufs["alloc_closure_eaddr"] {
+		e.ufs["alloc_closure_eaddr"] = true
+		e.specDefs = append(e.specDefs, "(assert (forall ((r Int) (j "+e.sorter.idxSort()+")) (! (= (select "+a0+" (eaddr r j)) (select "+a0+" r)) :pattern ((eaddr r j)))))")
+	}
 }
